@@ -14,7 +14,9 @@ CHECKS = {
              "fresh core | with random TEMP0-13 and call bookkeeping | on a long-lived core after an unrelated program (also placed at the probe's own "
              "address) with the architectural state restored | on a fresh core created last in the process; programs (96 quick / 2500 thorough, "
              "looping, 7-40 steps) run N+M steps in one go | N steps, registers+memory carried into a NEW core, M steps | twice on fresh cores with "
-             "every step compared | (Python) the snapshot-driven CPUStepper with a new CPU per step against one Emulator. The first differing "
+             "every step compared | (Python) the snapshot-driven CPUStepper with a new CPU per step against one Emulator; and on the whole machines "
+             "(CoreRuntime::step(k) / PCE500Emulator.run(k), resident programs with interrupts, firmware-raised requests and both timers live) one "
+             "batch of T instructions | T single steps | two-batch splits. The first differing "
              "architectural component is named. The fresh Python runs are also judged by JudgeSem (figure in the evidence; disagreements are C04's). "
              "Static complement: the lifted IL of every distinct instruction shape is exported as a control-flow graph and TLC (TempDefUse) explores "
              "every path carrying the set of TEMP registers written so far - DefBeforeUse must hold at every node.",
@@ -79,7 +81,8 @@ CHECKS = {
              "executed on the real Python HD61202Controller and the real Rust LcdController, and every step (returned value, "
              "chip registers, VRAM delta) is validated by TLC against TraceLcd.tla at full 8x64 geometry. PixelMap.tla states "
              "the one-to-one / one-column predicates; the complete pixel map of each implementation (all 8192 VRAM bits probed "
-             "through the protocol) is judged by TLC.",
+             "through the protocol) is judged by TLC, with both chips on and again with each chip switched off in turn (OwnChipOnly: what the "
+             "chip that is on shows does not depend on the other chip's on/off state).",
         design_ref="DESIGN.md section 4 (C15)",
         note="Trusted: TLC, vh harness (lcd.rs), Python driver in checks/c15.py. One known finding (writes at read addresses, Rust vs Python) is listed in known_findings.json.",
         technique="TLA+ spec (Lcd.tla, PixelMap.tla) + TLC exhaustive/simulate + trace validation of both implementations + complete pixel-map enumeration judged by TLC",
@@ -216,7 +219,8 @@ CHECKS = {
              "structure over 75 byte cells (IMEM edges, 24/32-bit wrap aliases, mirror window, card window, overlay edges) and "
              "TraceMemory.tla judges it (equivalence; internal and external space disjoint) and then validates seeded random "
              "8/16/24-bit load/store sequences plus a final read-back of every cell against the class-based memory semantics; "
-             "RomWindowImmutable: no cell of the ROM window or of a read-only range accepts a store, backed or not.",
+             "RomWindowImmutable: no cell of the ROM window or of a read-only range accepts a store, backed or not, nor changes through a "
+             "store at another cell (a mirror alias outside the range; configuration mirror+readonly-ram).",
         design_ref="DESIGN.md section 4 (C11)",
         note="Trusted: TLC, vh mem module, Python driver. Two known findings (Python IMEM aliasing on a bare bus, Rust multi-byte accesses across region edges) are listed in known_findings.json.",
         technique="TLA+ spec (MemoryBus.tla) + TLC exhaustive + probed alias structure and load/store traces of both buses judged by TLC",
@@ -257,7 +261,7 @@ CHECKS = {
              "decoded operand objects) and a machine state to the bytes read as data, written, read to form addresses, and the registers that may "
              "change, under the documented addressing rules, mnemonic widths and I-counted ranges. TLC (JudgeDenote) compares that denotation with "
              "the accesses recorded through the Memory callbacks while Emulator.execute_instruction runs, for every documented structural encoding "
-             "(4 prefixes + none quick, all 15 thorough) x seeded states with BP/PX/PY distinct and non-zero, boundary pointers, I in 1..8: "
+             "(4 prefixes + none quick, all 15 thorough) x seeded states with BP/PX/PY distinct and non-zero, boundary pointers, I in 1..8 (and 0x100-0x234 for block moves with an external operand): "
              "denoted bytes must be accessed, nothing else may be (outside the instruction's own bytes), no undenoted register may change. "
              "On the model, TLC checks over the complete structural space of encodings (MCSemSpace: 89856 states quick, all prefixes x all second "
              "bytes thorough) that the bytes SC62015Sem.Exec writes are exactly the ones Denote assigns to the text (DenoteCoversExec).",
@@ -272,7 +276,8 @@ CHECKS = {
         text="SC62015Sem.tla is an executable TLA+ transcription of the README instruction tables (Exec: destination value, C/Z where the table "
              "defines them, pointer/counter/stack side effects; Unspecified: states the README does not cover). TLC (JudgeSem) judges every "
              "recorded one-instruction execution of the Python core - every documented structural encoding x seeded base / boundary-wide / "
-             "long-block states (3 per encoding quick, 10 thorough; overlapping two-operand block ranges added) - clause by clause: result "
+             "long-block states (3 per encoding quick, 10 thorough; overlapping two-operand block ranges and block lengths 0x100-0x234 for the "
+             "block moves with an external operand added) - clause by clause: result "
              "registers, next PC, flag values, flags the table marks '-' preserved, written memory, and the frame condition (every other "
              "register and every location the implementation wrote). TLC (JudgeAlu) judges complete (a, b, carry) tables of the 8-bit "
              "operations in every operand form: 70 forms, all 2^17 inputs each in the thorough tier; quick: 3 forms complete + a stratified "
